@@ -393,29 +393,7 @@ func C01(ctx *core.Ctx) {
 
 	// ---- R7 frame ownership -------------------------------------------------------
 	ctx.Rule("C01.R7", "frame ownership: every frame a reader loop hands to the registry is a buffer allocated for that frame alone (the registry passes it to the caller uncopied)", 1)
-	for _, fn := range r.Fns {
-		for _, c := range ssax.Calls(fn) {
-			if !(c.Method != nil && c.Method.Name() == "Execute" && ssax.TypeNamed(c.Method.Type().(*types.Signature).Recv().Type(), "", "fRegistry")) {
-				continue
-			}
-			if !r.onCycle(c.Instr.(ssa.Instruction)) {
-				continue
-			}
-			frame := ssax.Strip(c.Args()[1])
-			ok, how := false, ""
-			if tup, isEx := ExtractOf(frame, 0); isEx {
-				if pc, isCall := CallValue(tup); isCall && pc.Static != nil && pc.Static.Pkg == r.Pkg {
-					ok = returnsFreshSlice(pc.Static)
-					how = ssax.Name(pc.Static) + " returns a slice made in that call on every path"
-				}
-			}
-			if _, isMake := frame.(*ssa.MakeSlice); isMake {
-				ok, how = true, "make([]byte, …) inside the loop"
-			}
-			ctx.Check(ok, "C01.R7", ssax.Name(fn)+" › frame passed to Execute is freshly allocated", r.IPos(c.Instr), how,
-				"the reader loop reuses frame storage across iterations while the previous frame is still owned by a caller (delivered uncopied through the result channel): a correctly correlated request decodes another request's bytes")
-		}
-	}
+	frameOwnership(ctx, r, "C01.R7")
 
 	// ---- R4/R5 Request implementations --------------------------------------
 	for _, req := range r.Impl("FTransport", "Request") {
@@ -971,4 +949,33 @@ func recvOnlyHelperCall(r *RT, call ssa.CallInstruction, ch ssa.Value, depth int
 		}
 	}
 	return ok
+}
+
+// frameOwnership: every frame a reader loop hands to the registry is a buffer
+// allocated for that frame alone.
+func frameOwnership(ctx *core.Ctx, r *RT, rule string) {
+	for _, fn := range r.Fns {
+		for _, c := range ssax.Calls(fn) {
+			if !(c.Method != nil && c.Method.Name() == "Execute" && ssax.TypeNamed(c.Method.Type().(*types.Signature).Recv().Type(), "", "fRegistry")) {
+				continue
+			}
+			if !r.onCycle(c.Instr.(ssa.Instruction)) {
+				continue
+			}
+			frame := ssax.Strip(c.Args()[1])
+			ok, how := false, ""
+			if tup, isEx := ExtractOf(frame, 0); isEx {
+				if pc, isCall := CallValue(tup); isCall && pc.Static != nil && pc.Static.Pkg == r.Pkg {
+					ok = returnsFreshSlice(pc.Static)
+					how = ssax.Name(pc.Static) + " returns a slice made in that call on every path"
+				}
+			}
+			if _, isMake := frame.(*ssa.MakeSlice); isMake {
+				ok, how = true, "make([]byte, …) inside the loop"
+			}
+			ctx.Check(ok, rule, ssax.Name(fn)+" › frame passed to Execute is freshly allocated", r.IPos(c.Instr), how,
+				"the reader loop reuses frame storage across iterations while the previous frame is still owned by a caller (delivered uncopied through the result channel): a correctly correlated request decodes another request's bytes")
+		}
+	}
+
 }
